@@ -6,6 +6,7 @@
 -/
 import GoBT.Script.Classify
 import GoBT.Script.IndexReviewLib
+import GoBT.Props.C13
 namespace GoBT.C14
 open GoBT GoBT.Script
 
@@ -307,6 +308,218 @@ theorem p2pkh_iff_template (s : Bytes) :
       simp [hp.1.1.1.1.1]
     unfold scriptType
     simp [hp, hlen]
+
+/-! ### scripts that instantiate a standard template are reported as that type -/
+
+/-- **Data carrier template**: a script that starts with OP_RETURN, or with OP_FALSE OP_RETURN, is reported as data. -/
+theorem data_template_classified (s : Bytes)
+    (h : s[0]? = some opRETURN ∨ (s[0]? = some 0x00 ∧ s[1]? = some opRETURN)) : scriptType s = some .nulldata := by
+  have hne : (s.length == 0) = false := by
+    cases s with
+    | nil => rcases h with h | h <;> simp at h
+    | cons a t => simp
+  have hp : isP2PKH s = false := by
+    unfold isP2PKH
+    rcases h with h | ⟨h, _⟩ <;> simp [h, opRETURN, opDUP]
+  have hd : isData s = true := by
+    unfold isData
+    cases s with
+    | nil => simp at hne
+    | cons a t =>
+      rcases h with h | ⟨h0, h1⟩
+      · simp only [List.getElem?_cons_zero, Option.some.injEq] at h
+        simp [h]
+      · cases t with
+        | nil => simp at h1
+        | cons b u =>
+          simp only [List.getElem?_cons_zero, List.getElem?_cons_succ, Option.some.injEq] at h0 h1
+          simp [h0, h1]
+  unfold scriptType
+  simp [hne, hp, hd]
+
+/-- **Pay-to-public-key template**: `<key> OP_CHECKSIG` with a 33-byte key starting 02/03 or a 65-byte key starting
+    04/06/07 is reported as `pubkey`. -/
+theorem p2pk_template_classified (key : Bytes)
+    (hk : (key.length = 33 ∧ (key[0]? = some 0x02 ∨ key[0]? = some 0x03)) ∨
+          (key.length = 65 ∧ (key[0]? = some 0x04 ∨ key[0]? = some 0x06 ∨ key[0]? = some 0x07))) :
+    ∃ s, C13.encToks [.push key, .op opCHECKSIG] = some s ∧ scriptType s = some .pubkey := by
+  have hok : ∀ t ∈ [C13.Tok.push key, C13.Tok.op opCHECKSIG], t.ok := by
+    intro t ht
+    simp only [List.mem_cons, List.mem_nil_iff, or_false] at ht
+    rcases ht with rfl | rfl
+    · simp only [C13.Tok.ok]; rcases hk with ⟨h, _⟩ | ⟨h, _⟩ <;> omega
+    · simp [C13.Tok.ok, opCHECKSIG]
+  obtain ⟨enc, he, hd⟩ := C13.decode_toks _ hok
+  refine ⟨enc, he, ?_⟩
+  have hdec : decodeParts enc = ([key, [opCHECKSIG]], true) := by
+    unfold decodeParts; simpa [C13.Tok.part] using hd enc.length (Nat.le_refl _)
+  -- the concrete bytes
+  have henc : enc = (if key.length = 33 then [0x21] else [0x41]) ++ key ++ [opCHECKSIG] := by
+    rcases hk with ⟨h, _⟩ | ⟨h, _⟩ <;>
+      (simp [C13.encToks, C13.Tok.enc, pushPrefix, h, bind, Option.bind] at he; rw [← he]; simp [h])
+  have hlen : enc.length = key.length + 2 := by rw [henc]; split <;> simp
+  have h0 : enc[0]? = some (if key.length = 33 then 0x21 else 0x41) := by rw [henc]; split <;> simp
+  have hne : (enc.length == 0) = false := by rw [hlen]; simp
+  have hp : isP2PKH enc = false := by
+    unfold isP2PKH
+    have : (enc.length == 25) = false := by rw [hlen]; rcases hk with ⟨h, _⟩ | ⟨h, _⟩ <;> simp [h]
+    simp [this]
+  have hdt : isData enc = false := by
+    unfold isData
+    rw [h0]
+    split <;> simp [opRETURN]
+  have hpk : isP2PK enc = some true := by
+    unfold isP2PK
+    simp only [hdec, Bool.not_true, Bool.false_eq_true, ↓reduceIte, List.length_cons, List.length_nil, beq_self_eq_true,
+      List.getElem?_cons_zero, List.getElem?_cons_succ, bind, Option.bind, pure]
+    cases key with
+    | nil => rcases hk with ⟨h, _⟩ | ⟨h, _⟩ <;> simp at h
+    | cons k0 kt =>
+      simp only [List.getElem?_cons_zero, Option.some.injEq] at hk
+      rcases hk with ⟨h, hv⟩ | ⟨h, hv⟩
+      · rcases hv with hv | hv <;> (subst hv; simp [h, opCHECKSIG])
+      · rcases hv with hv | hv | hv <;> (subst hv; simp [h, opCHECKSIG])
+  unfold scriptType
+  simp [hne, hp, hdt, hpk, bind, Option.bind]
+
+/-- the first byte of an encoded push is a push opcode (1..0x4e), in particular neither OP_RETURN nor a small integer -/
+private theorem push_enc_head (k : Bytes) (hk : 1 ≤ k.length ∧ k.length < 2 ^ 32) :
+    ∃ b rest, (C13.Tok.push k).enc = some (b :: rest) ∧ 1 ≤ b.toNat ∧ b.toNat ≤ 0x4e := by
+  simp only [C13.Tok.enc, pushPrefix]
+  by_cases c1 : k.length ≤ 75
+  · refine ⟨UInt8.ofNat k.length, k, by simp [c1], ?_⟩
+    have : (UInt8.ofNat k.length).toNat = k.length := by simp [UInt8.toNat_ofNat]; omega
+    omega
+  · by_cases c2 : k.length ≤ 0xFF
+    · exact ⟨opPUSHDATA1, UInt8.ofNat k.length :: k, by simp [c1, c2], by decide⟩
+    · by_cases c3 : k.length ≤ 0xFFFF
+      · exact ⟨opPUSHDATA2, leEnc 2 k.length ++ k, by simp [c1, c2, c3], by decide⟩
+      · have c4 : k.length ≤ 0xFFFFFFFF := by omega
+        exact ⟨opPUSHDATA4, leEnc 4 k.length ++ k, by simp [c1, c2, c3, c4], by decide⟩
+
+/-- **Bare multisig template**: `OP_m <key>… OP_n OP_CHECKMULTISIG` — `m`, `n` small-integer opcodes, any number of
+    non-empty keys — is reported as `multisig`. -/
+theorem multisig_template_classified (m n : UInt8) (keys : List Bytes)
+    (hm : isSmallIntOp m = true) (hn : isSmallIntOp n = true) (hkeys : ∀ k ∈ keys, 1 ≤ k.length ∧ k.length < 2 ^ 32) :
+    ∃ s, C13.encToks (.op m :: keys.map .push ++ [.op n, .op opCHECKMULTISIG]) = some s ∧ scriptType s = some .multisig := by
+  have small : ∀ b : UInt8, isSmallIntOp b = true → b = 0x00 ∨ (0x51 ≤ b.toNat ∧ b.toNat ≤ 0x60) := by
+    intro b hb
+    unfold isSmallIntOp at hb
+    simp only [Bool.or_eq_true, beq_iff_eq, Bool.and_eq_true, decide_eq_true_eq] at hb
+    exact hb
+  have opok : ∀ b : UInt8, isSmallIntOp b = true → (C13.Tok.op b).ok := by
+    intro b hb
+    simp only [C13.Tok.ok]
+    rcases small b hb with rfl | h
+    · decide
+    · omega
+  have hok : ∀ t ∈ (C13.Tok.op m :: keys.map C13.Tok.push ++ [C13.Tok.op n, C13.Tok.op opCHECKMULTISIG]), t.ok := by
+    intro t ht
+    simp only [List.cons_append, List.mem_cons, List.mem_append, List.mem_map, List.mem_nil_iff, or_false] at ht
+    rcases ht with rfl | ⟨k, hk, rfl⟩ | rfl | rfl
+    · exact opok m hm
+    · exact hkeys k hk
+    · exact opok n hn
+    · simp [C13.Tok.ok, opCHECKMULTISIG]
+  obtain ⟨enc, he, hd⟩ := C13.decode_toks _ hok
+  refine ⟨enc, he, ?_⟩
+  have hparts : decodeParts enc = ([m] :: keys ++ [[n], [opCHECKMULTISIG]], true) := by
+    unfold decodeParts
+    have := hd enc.length (Nat.le_refl _)
+    simpa [C13.Tok.part, List.map_append, Function.comp_def] using this
+  -- shape of the bytes: the first is `m`; the second is a push opcode or `n`
+  have hshape : ∃ rest, enc = m :: rest ∧ (∀ b, rest[0]? = some b → b ≠ opRETURN) := by
+    simp only [List.cons_append, C13.encToks, C13.Tok.enc, bind, Option.bind] at he
+    cases hr : C13.encToks (keys.map C13.Tok.push ++ [C13.Tok.op n, C13.Tok.op opCHECKMULTISIG]) with
+    | none => simp [hr] at he
+    | some rest =>
+      simp only [hr, pure, Option.some.injEq, List.cons_append, List.nil_append] at he
+      refine ⟨rest, he.symm, ?_⟩
+      cases keys with
+      | nil =>
+        simp only [List.map_nil, List.nil_append, C13.encToks, C13.Tok.enc, bind, Option.bind, pure, Option.some.injEq] at hr
+        subst hr
+        intro b hb
+        simp only [List.cons_append, List.nil_append, List.getElem?_cons_zero, Option.some.injEq] at hb
+        subst hb
+        rcases small n hn with rfl | h
+        · decide
+        · intro e; subst e; simp [opRETURN] at h
+      | cons k ks =>
+        obtain ⟨b0, r0, hb0, h1, h2⟩ := push_enc_head k (hkeys k (by simp))
+        simp only [List.map_cons, List.cons_append, C13.encToks, hb0, bind, Option.bind] at hr
+        cases hr2 : C13.encToks (ks.map C13.Tok.push ++ [C13.Tok.op n, C13.Tok.op opCHECKMULTISIG]) with
+        | none => simp [hr2] at hr
+        | some r2 =>
+          simp only [hr2, pure, Option.some.injEq, List.cons_append] at hr
+          subst hr
+          intro b hb
+          simp only [List.getElem?_cons_zero, Option.some.injEq] at hb
+          subst hb
+          intro e; subst e; simp [opRETURN] at h2
+  obtain ⟨rest, henc, hsnd⟩ := hshape
+  have hne : (enc.length == 0) = false := by rw [henc]; simp
+  have hp : isP2PKH enc = false := by
+    unfold isP2PKH
+    have : (enc[0]? == some opDUP) = false := by
+      rw [henc]
+      simp only [List.getElem?_cons_zero]
+      rcases small m hm with rfl | h
+      · decide
+      · have : m ≠ opDUP := by intro e; subst e; simp [opDUP] at h
+        simp [this]
+    simp [this]
+  have hdt : isData enc = false := by
+    unfold isData
+    rw [henc]
+    have h0 : m ≠ opRETURN := by
+      rcases small m hm with rfl | h
+      · decide
+      · intro e; subst e; simp [opRETURN] at h
+    simp only [List.getElem?_cons_zero, List.getElem?_cons_succ, Option.some.injEq, List.length_cons]
+    cases hr0 : rest[0]? with
+    | none => simp [h0]
+    | some b => have := hsnd b hr0; simp [h0, this]
+  have hpk : isP2PK enc = some false := by
+    unfold isP2PK
+    simp [hparts]
+  have hms : isMultiSigOut enc = some true := by
+    obtain ⟨parts, hpe⟩ : ∃ parts, parts = [m] :: keys ++ [[n], [opCHECKMULTISIG]] := ⟨_, rfl⟩
+    have hlen : parts.length = keys.length + 3 := by rw [hpe]; simp
+    have h0 : parts[0]? = some [m] := by rw [hpe]; rfl
+    have hmid : (parts.drop 1).take (parts.length - 3) = keys := by
+      rw [hlen, hpe]
+      simp only [List.cons_append, List.drop_succ_cons, List.drop_zero, Nat.add_sub_cancel]
+      exact List.take_left' rfl
+    have hpm : parts[parts.length - 2]? = some [n] := by
+      rw [hlen, hpe]
+      have : keys.length + 3 - 2 = keys.length + 1 := by omega
+      rw [this]
+      simp only [List.cons_append, List.getElem?_cons_succ]
+      rw [List.getElem?_append_right (Nat.le_refl _)]
+      simp
+    have hpl : parts[parts.length - 1]? = some [opCHECKMULTISIG] := by
+      rw [hlen, hpe]
+      have : keys.length + 3 - 1 = keys.length + 1 + 1 := by omega
+      rw [this]
+      simp only [List.cons_append, List.getElem?_cons_succ]
+      rw [List.getElem?_append_right (by omega)]
+      simp
+    have hany : (keys.any fun p => decide (p.length < 1)) = false := by
+      rw [List.any_eq_false]
+      intro k hk
+      have h1 := (hkeys k hk).1
+      simp only [decide_eq_true_eq, Nat.not_lt]
+      exact h1
+    rw [← hpe] at hparts
+    unfold isMultiSigOut
+    have hl : ¬ (parts.length < 3) := by omega
+    simp only [hparts, Bool.not_true, Bool.false_eq_true, ↓reduceIte, hl, h0, bind, Option.bind, List.length_singleton,
+      show ((1 : Nat) == 0) = false from rfl, List.getElem?_cons_zero, hm, hmid, hany, hpm, hpl, pure,
+      show (1 : Nat) > 0 from Nat.one_pos, hn, Bool.true_and, decide_true, beq_self_eq_true]
+
+  unfold scriptType
+  simp [hne, hp, hdt, hpk, hms, bind, Option.bind]
 
 /-- A script is reported as data only if it starts with OP_RETURN or OP_FALSE OP_RETURN. -/
 theorem data_only_if_prefix (s : Bytes) (h : scriptType s = some .nulldata) :
